@@ -345,6 +345,9 @@ func hostileAuthorities(x *c16World, rngSeed uint64) map[string]string {
 		"bridger":        x.eth.Oracles[0].Bridger.Bech32(),
 		"empty":          "",
 		"gov-mixed-case": strings.ToUpper(gov[:6]) + gov[6:],
+		// (the all-upper-case spelling is deliberately absent: it is valid bech32 for the *same* account, resolves
+		// to the same required signer, and x/evm's MsgCallContract accepts it by design)
+		"gov-long-s":     strings.Replace(gov, "s", "\u017f", 1),
 		"gov-truncated":  gov[:len(gov)-1],
 		"gov-padded":     gov + " ",
 		"gov-hex":        common.BytesToAddress(chain.GovAddr()).Hex(),
